@@ -529,12 +529,69 @@ def rule_rows(ctx, rep):
                  loc(model.unit_of(mt), mt.node))
 
 
+def rule_ctor_line(ctx, rep):
+    """What the reader computed is what the token carries: every block token constructor that is handed a line
+    number stores exactly that value as line_number, on every path (whatever else it is given)."""
+    model = ctx.model
+    rule = 'R-CTOR-LINE'
+    rep.rule(rule, 'a token constructor that receives a line number stores that value, on every path')
+    base = model.cls('block_token.BlockToken')
+    n = 0
+    for cls in sorted(model.classes.values(), key=lambda c: c.qualname):
+        if not cls.is_subclass_of(base):
+            continue
+        hit = cls.lookup('__init__')
+        if hit is None or hit[0] != 'method' or 'line_number' not in hit[1].params():
+            continue
+        fi = hit[1]
+        rep.instance(rule)
+        n += 1
+        L = Aff.sym('L')
+        bad = []
+
+        def runner(oracle, cls=cls, fi=fi):
+            it = Interp(model, loop_bound=2)
+            it.reset_run(oracle)
+            install(model, it, [])
+            for short in ('block_tokenizer.make_tokens', 'span_token.tokenize_inner'):
+                if model.has_func(short):
+                    it.func_hooks[model.func(short).qualname] = lambda interp, f, args, kwargs: []
+            o = Obj(cls, {})
+            kwargs = {}
+            args = [o]
+            for p in fi.params()[1:]:
+                if p == 'line_number':
+                    kwargs[p] = L
+                elif p in ('line', 'content'):
+                    args.append(AbsStr(label=p))
+                elif len(args) == len(fi.params()[1:fi.params().index(p) + 1]):
+                    args.append(Unknown(p))
+            try:
+                it.call_function(fi, args, kwargs)
+            except (Raised, LoopTruncated):
+                return None
+            return o.attrs.get('line_number', MISSING)
+        try:
+            for trace, v in enumerate_paths(runner, 300):
+                if v is not None and v is not L and not (isinstance(v, Aff) and repr(v) == repr(L)):
+                    bad.append(repr(v))
+        except PathLimit:
+            pass
+        rep.obligation(rule, not bad, {'class': cls.short, 'line_number stored': sorted(set(bad)) or 'the value received'})
+        if bad:
+            rep.find(rule, fi.short, 'stored:%s' % cls.name,
+                     '%s receives the line number its reader computed but stores %s as line_number'
+                     % (fi.short, sorted(set(bad))[0]), loc(model.unit_of(fi), fi.node))
+    rep.floor(rule, n, 2)
+
+
 def run(ctx):
     rep = ctx.report
     rule_filewrapper(ctx, rep)
     rule_capture(ctx, rep)
     rule_origin(ctx, rep)
     rule_rows(ctx, rep)
+    rule_ctor_line(ctx, rep)
     # "documents beginning with blank lines": Document hands the tokenizer its input lines one for one, leading
     # blank lines included, so that line k of the input is line k of the buffer (shared with C15)
     from . import c15
